@@ -106,7 +106,7 @@ PLANS["C18"] = {
                     "(incl. documented case / O I L aliases) nor the padding character; such text must decode to nil. Text made of "
                     "alphabet characters with wrong length or misplaced padding may decode to nil or to some bit-string, never an error"],
     "require": [need("round_trips", 10000), need_set("invalid_text_classes", 7), need_set("lengths_mod_20", 20),
-                need("invalid_text_nil", 5000), need("form:unaligned-bitstr", 1000), need("form:aligned-view-of-longer-buffer", 1000), need("acceptance_checks", 500)],
+                need("invalid_text_nil", 5000), need("form:unaligned-bitstr", 1000), need("form:aligned-view-of-longer-buffer", 1000), need("acceptance_checks", 500), need("long_inputs", 300)],
 }
 
 G1_RULE = ("a case is a random program from the control-flow grammar (literals, stack words, if/else/then, case/of/endof/endcase, "
